@@ -2,6 +2,7 @@ package rules
 
 import (
 	"go/token"
+	"strings"
 
 	"golang.org/x/tools/go/ssa"
 
@@ -186,73 +187,60 @@ func tlv8ListEncoding(c *core.Ctx) {
 func transportAnnouncement(c *core.Ctx) {
 	p := c.P
 	if f := p.Func("", "(*ipTransport).isPaired"); f != nil {
-		// true is returned only where Entities() succeeded and holds more than one entry
-		more := func(cond ssa.Value) (bool, bool) {
-			b, ok := cond.(*ssa.BinOp)
+		// true is returned only where Entities() succeeded and an entity without a private key was seen; false where the read
+		// failed or no such entity was seen
+		okErr := errNilFact(1, func(i ssa.Instruction) bool { return core.IsInvoke(i, qDatabase, "Entities") })
+		noPrivate := func(cond ssa.Value) (bool, bool) {
+			bo, ok := cond.(*ssa.BinOp)
 			if !ok {
 				return false, false
 			}
-			isLenEs := func(v ssa.Value) bool {
-				call, ok := core.StripConv(v).(*ssa.Call)
-				if !ok {
-					return false
-				}
-				bi, ok := call.Call.Value.(*ssa.Builtin)
-				return ok && bi.Name() == "len" && core.AnySource(call.Call.Args[0], func(s ssa.Value) bool {
-					return core.CallResult(s, 0, func(i ssa.Instruction) bool { return core.IsInvoke(i, qDatabase, "Entities") }) != nil
-				})
-			}
-			k, isK := core.ConstInt(b.Y)
-			if !isK || !isLenEs(b.X) {
+			call, ok := bo.X.(*ssa.Call)
+			if !ok {
 				return false, false
 			}
-			switch {
-			case b.Op == token.GTR && k == 1, b.Op == token.GEQ && k == 2:
+			bi, ok := call.Call.Value.(*ssa.Builtin)
+			if !ok || bi.Name() != "len" {
+				return false, false
+			}
+			isPK := false
+			if _, ok := core.FieldLoad(call.Call.Args[0], mod+"/db.Entity", "PrivateKey"); ok {
+				isPK = true
+			}
+			if fv, ok := call.Call.Args[0].(*ssa.Field); ok && core.FieldName(fv) == mod+"/db.Entity.PrivateKey" {
+				isPK = true
+			}
+			k, isK := core.ConstInt(bo.Y)
+			if !isPK || !isK || k != 0 {
+				return false, false
+			}
+			switch bo.Op {
+			case token.EQL, token.LEQ:
 				return true, false
-			case b.Op == token.LEQ && k == 1, b.Op == token.LSS && k == 2:
+			case token.GTR, token.NEQ:
 				return false, true
 			}
 			return false, false
 		}
-		okErr := errNilFact(1, func(i ssa.Instruction) bool { return core.IsInvoke(i, qDatabase, "Entities") })
 		good, n := true, 0
-		core.Instrs(f, func(i ssa.Instruction) {
-			r, ok := i.(*ssa.Return)
-			if !ok || len(res(r)) != 1 {
+		okEnum := core.EnumPaths(f, 2, 20000, func(pa core.Path) {
+			r := pa.Returns()
+			if r == nil || len(res(r)) != 1 {
 				return
 			}
-			k, isK := core.ConstInt(res(r)[0])
+			v := pa.ResolveAt(len(pa)-1, res(r)[0])
+			k, isK := core.ConstInt(v)
 			if !isK {
-				// return len(es) > 1  where the read succeeded; or  err == nil && len(es) > 1  (false where err != nil)
-				vals := []ssa.Value{res(r)[0]}
-				if ph, isPhi := res(r)[0].(*ssa.Phi); isPhi {
-					vals = nil
-					for _, e := range ph.Edges {
-						if kk, isKK := core.ConstInt(e); isKK && kk == 0 {
-							continue
-						}
-						vals = append(vals, e)
-					}
-				}
-				for _, v := range vals {
-					vi, isInstr := v.(ssa.Instruction)
-					if t, _ := more(v); t && isInstr && (core.Dominated(vi, okErr) || core.Dominated(r, okErr)) {
-						continue
-					}
-					good = false
-				}
-				n += 2
+				good = false // the answer is not decided by the branches of the function
 				return
 			}
 			n++
-			if k == 1 && !(core.Dominated(r, more) && core.Dominated(r, okErr)) {
-				good = false
-			}
-			if k == 0 && core.Dominated(r, more) && core.Dominated(r, okErr) {
+			found := pathEstablishes(pa, okErr) && pathEstablishes(pa, noPrivate)
+			if (k == 1) != found {
 				good = false
 			}
 		})
-		c.Check(good && n >= 2, "is-paired-polarity@"+fname(f), f.Pos(), "paired = the database could be read and holds more than the accessory's own entity", "isPaired answers true without (or false with) a second stored entity: a paired accessory is announced as pairable, or an unpaired one as paired")
+		c.Check(good && okEnum && n >= 2, "is-paired-polarity@"+fname(f), f.Pos(), "paired = the database could be read and holds an entity without a private key (a controller)", "isPaired answers true without having seen a stored controller (an entity without a private key), or false although it saw one: a paired accessory is announced as pairable, or an unpaired one as paired")
 	}
 	if f := p.Func("", "(*ipTransport).updateMDNSReachability"); f != nil {
 		ok := false
@@ -481,6 +469,51 @@ func accessoryComposition(c *core.Ctx) {
 			}
 		})
 		c.Check(ok, "add-service-appends@"+fname(f), f.Pos(), "AddService appends the service to the accessory", "AddService does not append the service: accessories are published without it")
+		// ... and numbers it: ids are otherwise assigned once, when the accessory is put into a container; a service added after that
+		// (the library's own television example adds its input sources after creating the transport) is served with iid 0, and so are
+		// its characteristics — duplicate, zero instance ids and "linked":[0,0,0]
+		numbered := false
+		core.Instrs(f, func(i ssa.Instruction) {
+			if g := core.Callee(i); g != nil && core.TypeIs(recvType(g), mod+"/accessory.Accessory") && valIs(core.Receiver(i), f.Params[0]) {
+				writes := false
+				core.Instrs(g, func(j ssa.Instruction) {
+					if st, ok := j.(*ssa.Store); ok {
+						if _, isID := core.FieldAddrOf(st.Addr, mod+"/service.Service", "ID"); isID {
+							writes = true
+						}
+					}
+				})
+				if writes {
+					numbered = true
+				}
+			}
+			if st, ok := i.(*ssa.Store); ok {
+				if _, isID := core.FieldAddrOf(st.Addr, mod+"/service.Service", "ID"); isID {
+					numbered = true
+				}
+			}
+		})
+		c.Check(numbered, "add-service-numbers@"+fname(f), f.Pos(), "AddService assigns instance ids to what it adds", "AddService only appends: a service that is added after the accessory was put into a container keeps instance id 0, and so do its characteristics — the accessory is served with zero and duplicate instance ids")
+	}
+	// numbering starts from the same constant on every call: the ids depend on the order of the services only, not on how often the
+	// accessory was numbered before (offered to a second container, rejected as a duplicate, numbered again after AddService)
+	if f := p.Func("accessory", "(*Accessory).UpdateIDs"); f != nil {
+		restarts := false
+		for _, st := range core.FindCalls(f, func(ssa.Instruction) bool { return false }) {
+			_ = st
+		}
+		core.Instrs(f, func(i ssa.Instruction) {
+			st, ok := i.(*ssa.Store)
+			if !ok || st.Block() != f.Blocks[0] {
+				return
+			}
+			if _, isCnt := core.FieldAddrOf(st.Addr, mod+"/accessory.Accessory", "idCount"); isCnt {
+				if k, isK := core.ConstInt(st.Val); isK && k == 1 {
+					restarts = true
+				}
+			}
+		})
+		c.Check(restarts, "numbering-restarts@"+fname(f), f.Pos(), "UpdateIDs starts from 1 on every call", "UpdateIDs continues from wherever the counter stands: the instance ids an accessory is served with depend on how often it was numbered before (a rejected AddAccessory, a second container), not on its construction alone")
 	}
 	if f := p.Func("accessory", "New"); f != nil {
 		ok := false
@@ -490,5 +523,80 @@ func accessoryComposition(c *core.Ctx) {
 			}
 		})
 		c.Check(ok, "info-service-added@"+fname(f), f.Pos(), "a new accessory gets its accessory-information service", "accessory.New does not add the accessory-information service (required first service of every accessory)")
+	}
+}
+
+// ownEntityProtected (C20-R1): the accessory's long-term key pair is stored in the pairing database under the accessory's own name,
+// next to the controllers' entities. A pairing request — pair-setup's key exchange, /pairings add and remove — names its entity
+// itself; one that names the accessory replaces the key pair by the peer's public key (no private key: after the next start the
+// accessory has another identity and cannot sign) or removes it. Every SaveEntity / DeleteEntity in the pairing controllers is
+// therefore behind a test that excludes the accessory's own entity: the name differs from the device's name, or the entity stored
+// under that name holds no private key.
+func ownEntityProtected(c *core.Ctx) {
+	p := c.P
+	n := 0
+	for _, f := range libFuncs(p) {
+		if !strings.HasSuffix(pkgPathOf(f), "/hap/pair") {
+			continue
+		}
+		for _, s := range core.FindCalls(f, func(i ssa.Instruction) bool {
+			return core.IsInvoke(i, qDatabase, "SaveEntity") || core.IsInvoke(i, qDatabase, "DeleteEntity")
+		}) {
+			if strings.Contains(fname(f), "Client") {
+				continue // the controller side of the protocol (test helper of the library)
+			}
+			n++
+			// name != device.Name()
+			notOwn := core.CmpFact(func(x, y ssa.Value) (bool, bool) {
+				isDevName := func(v ssa.Value) bool {
+					call, ok := v.(*ssa.Call)
+					return ok && (core.IsInvoke(call, mod+"/hap.SecuredDevice", "Name") || core.IsInvoke(call, mod+"/hap.Device", "Name"))
+				}
+				if isDevName(x) || isDevName(y) {
+					return false, true
+				}
+				return false, false
+			})
+			// the stored entity of that name has no private key: lookup failed, or len(e.PrivateKey) == 0
+			lookupErr := func(v ssa.Value) bool {
+				return core.AnySource(v, func(sv ssa.Value) bool {
+					return core.CallResult(sv, 1, func(ci ssa.Instruction) bool { return core.IsInvoke(ci, qDatabase, "EntityWithName") }) != nil
+				})
+			}
+			noPrivate := func(cond ssa.Value) (bool, bool) {
+				bo, ok := cond.(*ssa.BinOp)
+				if !ok {
+					return false, false
+				}
+				call, ok := bo.X.(*ssa.Call)
+				if !ok {
+					return false, false
+				}
+				bi, ok := call.Call.Value.(*ssa.Builtin)
+				if !ok || bi.Name() != "len" {
+					return false, false
+				}
+				if _, isPK := core.FieldLoad(call.Call.Args[0], mod+"/db.Entity", "PrivateKey"); !isPK {
+					return false, false
+				}
+				k, isK := core.ConstInt(bo.Y)
+				if !isK || k != 0 {
+					return false, false
+				}
+				switch bo.Op {
+				case token.GTR, token.NEQ:
+					return false, true
+				case token.EQL, token.LEQ:
+					return true, false
+				}
+				return false, false
+			}
+			ok := core.Dominated(s, notOwn) || core.Dominated(s, core.AnyFact(core.NonNilFact(lookupErr), noPrivate))
+			c.Check(ok, "own-entity-protected@"+fname(f)+"/"+core.CallOf(s).Method.Name(), posOf(s), "behind a test that the entity is not the accessory's own",
+				"a pairing request can name the accessory itself: "+core.CallOf(s).Method.Name()+" in "+fname(f)+" is reached without a test that the name is not the accessory's own (name != device name, or the stored entity has no private key) — the accessory's long-term key pair is replaced by the peer's public key or removed; after the next start the accessory has lost its identity")
+		}
+	}
+	if n == 0 {
+		c.Undecided("own-entity-protected", token.NoPos, "no SaveEntity / DeleteEntity call in the pairing controllers")
 	}
 }
